@@ -3,6 +3,12 @@
 (* tracking modes (1003 reports everything 1002 reports, 1002 everything 1000 *)
 (* reports), 1006 alone enables nothing, and every SGR report built from an   *)
 (* enabled event decodes back to it (oracle encode/decode round trip).        *)
+(* Constant-level sanity of the key rules (ASSUME, evaluated once): UTF-8     *)
+(* samples; whatever the numeric keypad mode allows the application mode      *)
+(* allows too (Num Lock rule) and the application mode allows the SS3 code;   *)
+(* an ideal encoding of every key class is accepted and the characteristic    *)
+(* wrong one (truncated text, bytes for a release, dropped keypad key, the    *)
+(* other cursor-key form for a wheel step) is rejected.                       *)
 EXTENDS Forward, TLC
 VARIABLE e
 Types == {"press", "release", "motion"}
@@ -18,4 +24,48 @@ SgrAloneEnablesNothing == (~e.m1000 /\ ~e.m1002 /\ ~e.m1003) => ~MouseEnabled(e)
 Pb == e.button + (IF e.type = "motion" THEN 32 ELSE 0) + (IF Bit(e.mods, 1) THEN 4 ELSE 0) + (IF Bit(e.mods, 2) THEN 8 ELSE 0) + (IF Bit(e.mods, 4) THEN 16 ELSE 0)
 RoundTrip == LET d == MouseEvent([pb |-> Pb, x |-> e.col + 1, y |-> e.row + 1, final |-> IF e.type = "release" THEN "m" ELSE "M"])
              IN d.button = e.button /\ d.type = e.type /\ d.col = e.col /\ d.row = e.row /\ d.mods = e.mods
+
+ASSUME /\ Utf8(65) = <<65>> /\ Utf8(233) = <<195, 169>> /\ Utf8(19990) = <<228, 184, 150>> /\ Utf8(128512) = <<240, 159, 152, 128>>
+       /\ \A c \in {127, 128, 2047, 2048, 65535, 65536, 1114111} : \A i \in 1..Len(Utf8(c)) : Utf8(c)[i] \in 0..255
+
+K0 == [ev |-> "key", name |-> "", code |-> 101, mods |-> 0, lower |-> TRUE, shifted |-> 69, etype |-> "press", text |-> <<>>,
+       decckm |-> FALSE, deckpam |-> FALSE, bytes |-> <<101>>, n |-> 1, rt |-> TRUE, rtnoalt |-> TRUE, ctrlm |-> <<>>,
+       allkeys |-> TRUE, gottext |-> <<101>>, gotname |-> "", gotmods |-> 0]
+KP(n, pam, b) == [K0 EXCEPT !.name = n, !.code = 0, !.deckpam = pam, !.bytes = b]
+ASSUME \A n \in Keypad \cup KeypadOps \cup {"KP_ENTER"} :
+          /\ ModeBytes(KP(n, FALSE, <<>>)) = {<<KeypadChar(n)>>}
+          /\ ModeBytes(KP(n, FALSE, <<>>)) \subseteq ModeBytes(KP(n, TRUE, <<>>))
+          /\ <<27, 79, KeypadFinal(n)>> \in ModeBytes(KP(n, TRUE, <<>>))
+          /\ KeyWhy(KP(n, TRUE, <<>>)) = "nothing-written" /\ KeyWhy(KP(n, FALSE, <<27, 79, KeypadFinal(n)>>)) = "mode-selected-encoding"
+          /\ KeyWhy(KP(n, TRUE, <<27, 79, KeypadFinal(n)>>)) = "ok" /\ KeyWhy(KP(n, TRUE, <<KeypadChar(n)>>)) = "ok"
+ASSUME \A n \in KeypadNav : \A m \in 0..7 :
+          /\ KeyWhy([KP(n, FALSE, <<27, 91, 68>>) EXCEPT !.mods = m, !.gotname = Twin(n), !.gotmods = m]) = "ok"
+          /\ KeyWhy([KP(n, FALSE, <<>>) EXCEPT !.mods = m]) = "nothing-written"
+          /\ KeyWhy([KP(n, FALSE, <<27, 91, 68>>) EXCEPT !.mods = m, !.gotname = n, !.gotmods = m]) # "ok"
+Cluster == <<101, 769>>
+ASSUME /\ KeyWhy([K0 EXCEPT !.text = Cluster, !.bytes = <<101, 204, 129>>, !.gottext = Cluster]) = "ok"
+       /\ KeyWhy([K0 EXCEPT !.text = Cluster, !.bytes = <<101>>, !.gottext = <<101>>]) = "text-of-key-not-forwarded"
+       /\ KeyWhy([K0 EXCEPT !.code = 113, !.text = <<64>>, !.bytes = <<64>>, !.gottext = <<64>>, !.rt = FALSE]) = "ok"      \* AltGr: the text decides, not the key code
+       /\ KeyWhy([K0 EXCEPT !.code = 0, !.text = <<233>>, !.bytes = <<0>>, !.gottext = <<>>]) = "text-of-key-not-forwarded"
+       /\ \A et \in {"press", "repeat", "paste"} : KeyWhy([K0 EXCEPT !.etype = et, !.text = <<101>>]) = "ok"
+       /\ KeyWhy([K0 EXCEPT !.etype = "release", !.text = <<101>>]) = "key-release-written"
+       /\ KeyWhy([K0 EXCEPT !.etype = "release", !.bytes = <<>>, !.n = 0]) = "ok"
+\* Alt chords: the right bytes with no event decoded are told apart from everything else
+ASSUME /\ KeyWhy([K0 EXCEPT !.code = 46, !.mods = Alt, !.lower = FALSE, !.bytes = <<27, 46>>, !.n = 0]) = "alt-lost-decoding-esc-intermediate"
+       /\ KeyWhy([K0 EXCEPT !.code = 46, !.mods = Alt, !.lower = FALSE, !.bytes = <<46>>, !.n = 1, !.rt = FALSE, !.rtnoalt = TRUE]) = "decoded-key-does-not-match"
+       /\ KeyWhy([K0 EXCEPT !.code = 46, !.mods = Alt, !.lower = FALSE, !.bytes = <<27, 46>>, !.n = 2]) = "not-one-key-event"
+       /\ KeyWhy([K0 EXCEPT !.code = 233, !.mods = Alt, !.shifted = 201, !.bytes = <<27, 195, 169>>, !.n = 0]) = "alt-lost-decoding-esc-nonascii"
+       /\ KeyWhy([K0 EXCEPT !.code = 233, !.mods = Alt + Shift, !.shifted = 201, !.bytes = <<27, 195, 137>>, !.n = 0]) = "alt-lost-decoding-esc-nonascii"
+       /\ KeyWhy([K0 EXCEPT !.code = 233, !.mods = Alt, !.shifted = 201, !.bytes = <<195, 169>>, !.n = 0]) = "not-one-key-event"
+       /\ KeyWhy([K0 EXCEPT !.code = 233, !.mods = Alt, !.shifted = 201, !.bytes = <<27, 195, 169>>, !.n = 1, !.rt = FALSE, !.rtnoalt = TRUE]) = "alt-lost-decoding-esc-nonascii"
+       /\ KeyWhy([K0 EXCEPT !.code = 233, !.mods = Alt, !.shifted = 201, !.bytes = <<27, 195, 169>>, !.n = 1, !.rt = FALSE, !.rtnoalt = FALSE]) = "decoded-key-does-not-match"
+       /\ KeyWhy([K0 EXCEPT !.code = 233, !.mods = Alt, !.shifted = 201, !.bytes = <<>>, !.n = 0]) = "nothing-written"
+W(btn, ckm, b) == [button |-> btn, type |-> "press", alt |-> TRUE, m1007 |-> TRUE, m1000 |-> FALSE, m1002 |-> FALSE, m1003 |-> FALSE, m1006 |-> FALSE,
+                   decckm |-> ckm, bytes |-> b]
+ASSUME \A btn \in {64, 65} : \A ckm \in BOOLEAN : \A k \in 1..3 :
+          LET f == IF btn = 64 THEN 65 ELSE 66
+              rep(u) == IF k = 1 THEN u ELSE IF k = 2 THEN u \o u ELSE u \o u \o u IN
+          /\ MouseWhy(W(btn, ckm, rep(<<27, IF ckm THEN 79 ELSE 91, f>>))) = "ok"
+          /\ MouseWhy(W(btn, ckm, rep(<<27, IF ckm THEN 91 ELSE 79, f>>))) = "alternate-scroll-cursor-key-mode"
+          /\ MouseWhy(W(btn, ckm, <<>>)) = "alternate-scroll-wheel-not-sent-as-cursor-keys"
 =============================================================================
